@@ -187,6 +187,10 @@ func checkDebCase(c DebCase, r *Recorder) error {
 		}
 		r.Sample(map[string]interface{}{"members": names, "controlTar": tarNames(c.M.CtlFiles), "dataTar": tarNames(c.M.DataFiles), "control": c.M.ControlText})
 	}
+	if len(raw)%5 == 0 {
+		// the documented knob for the xz decoder: 0 = default dictionary limit, or a generous explicit one
+		deb.SetXZMaxDict(uint32((len(raw) % 2) * (1 << 26)))
+	}
 	first, err := loadAndCheck(raw, c.M, members, c.ViaFile)
 	if err != nil {
 		return err
